@@ -1,5 +1,5 @@
 CONSTANT Reserved = {"False", "None", "True", "__peg_parser__", "all", "and", "any", "as", "assert", "async", "await", "break", "breakpoint", "class", "cls", "continue", "def", "del", "dir", "elif", "else", "except", "exec", "finally", "for", "format", "from", "global", "hash", "help", "if", "ignore_unknown_fields", "import", "in", "is", "lambda", "license", "list", "locals", "mapping", "max", "min", "next", "nonlocal", "not", "object", "open", "or", "pass", "raise", "range", "return", "self", "slice", "try", "type", "while", "with", "yield", "zip"}
-CONSTANTS Scope = "small" MaxFields = 2 MaxOps = 2 Mutant = "none"
+CONSTANTS Scope = "small" MaxFields = 1 MaxOps = 2 Mutant = "none"
 SPECIFICATION Spec
 INVARIANT Inv_WF
 INVARIANT Inv_SameFields
@@ -12,3 +12,4 @@ INVARIANT Inv_OneofExclusive
 INVARIANT Inv_Json
 INVARIANT Inv_Enum
 INVARIANT Inv_Manifest
+PROPERTY Live
